@@ -26,7 +26,7 @@ func init() {
 	// names that look like paths: a bookmark name is whatever follows the '@', also when it contains separators or dots
 	c19NamePool = append(c19NamePool, "clients/acme", "a/b/c", "dot.klg", "../up", "x:y", "@clients/acme")
 	// names that differ in letter case only, and names whose byte order and case-folded order differ
-	c19NamePool = append(c19NamePool, "Work", "work", "WORK", "Zeta", "zeta", "Alpha", "home", "Home")
+	c19NamePool = append(c19NamePool, "Work", "work", "WORK", "Zeta", "zeta", "Alpha", "home", "Home", "Default", "DEFAULT", "default", "@Default")
 }
 
 // c19RandomName draws an arbitrary valid-UTF-8 name (1-8 characters) that does not start with '-' and does not contain " -> " or a newline.
